@@ -330,7 +330,15 @@ func c04PointCase(t *rapid.T, ev *evProp, gi *GroupInfo) {
 	inCopy := append([]byte(nil), in...)
 	ctx := fmt.Sprintf("group=%s kind=%s input=%x", gi.Name, kind, inCopy)
 	key := func(w string) string { return fmt.Sprintf("C04/%s/%s", gi.Name, w) }
+	// the receiver is fresh or already holds a (non-normalised) value: whatever an accepted input leaves
+	// in it must be a group member
 	p := g.Point()
+	switch rapid.IntRange(0, 2).Draw(t, "recvkind") {
+	case 1:
+		p = markVT(gi, genPointD(t, gi, "recvold", 0).P.Clone())
+	case 2:
+		p = markVT(gi, g.Point().Add(basePoint(gi), g.Point().Mul(g.Scalar().SetInt64(5), basePoint(gi))))
+	}
 	var err error
 	useFrom := rapid.Bool().Draw(t, "unmarshalFrom")
 	if pn := safely(func() {
